@@ -38,6 +38,7 @@ INIT = {
     "p1A+meta": (("store", "p1", "A", None), ("store_meta", "p1", None, "v0")),
     "meta": (("store_meta", "p1", None, "v0"),),
     "meta2": (("store_meta", "p1", None, "v0"), ("store_meta", "p1", "f2", "v0")),
+    "meta3": (("store_meta", "p1", None, "v0"), ("store_meta", "p1", "f2", "v0"), ("store_meta", "p1", "f3", "v0")),
     "S2unref": (("store_nopid", "S2"),),
     "ABunref": (("store_nopid", "A"), ("store_nopid", "B")),
     "p1B": (("store", "p1", "B", None),),
@@ -171,6 +172,8 @@ def run_job(spec):
     """Explore one scenario exhaustively and judge every distinct terminal observation.
     Returns a picklable summary."""
     t0 = time.time()
+    env.STATE.list_reverse = spec.get("listing") == "reverse"  # environment answer for the whole job (all its executions and
+    # the sequential reference runs): directory listings come back in reverse order
     try:
         env.install()
         sc = make_scenario(spec)
